@@ -6,6 +6,7 @@ import FxVerif.Proofs.C08Books
 import FxVerif.Proofs.C08Run
 import FxVerif.Proofs.C08Ext
 import FxVerif.Proofs.C08Fam
+import FxVerif.Proofs.C08Hist
 import FxVerif.Model.C08Cache
 import FxVerif.Proofs.C08Cache
 import FxVerif.Gen.C04
@@ -812,6 +813,106 @@ theorem sum_preserved_unified (s s' : UState) (op : UOp) (h : stepU s op = .ok s
   · exact runFlow_WF univ hn fl _ _ hr (hin univ hE hW hu) a hwf
 
 end Exact
+
+/-! ### I_external, I_sum and the metadata part of I_index over WHOLE HISTORIES (round 3) -/
+
+section Histories
+open FxVerif.Proofs.C08
+
+/-- **the denominations of a registered token are pairwise different and its bank metadata exists, after every history
+from genesis** (induction over the op list): `base :: aliases` never has a duplicate — the fact every book over "base plus
+per-chain bridge denominations" rests on.  Hypotheses: fresh deployment addresses (`FreshRun`) and the stateless validation
+the router runs before the handler (`WellFormedRun`: a registration's alias list has no duplicates). -/
+theorem metadata_invariant_from_genesis (L : Ledger) (dead : List Nat) (ops : List UOp)
+    (hf : FreshRun ⟨genesisIdx, L, true, dead⟩ ops) (hw : WellFormedRun ops) :
+    MdInv (runU ⟨genesisIdx, L, true, dead⟩ ops).idx := by
+  suffices H : ∀ (s : UState), IdxInv s.idx → MdInv s.idx → FreshRun s ops → IdxInv (runU s ops).idx ∧ MdInv (runU s ops).idx from
+    (H _ index_invariant_genesis mdInv_genesis hf).2
+  clear hf
+  induction ops with
+  | nil => exact fun s hi hm _ => ⟨hi, hm⟩
+  | cons op ops ih =>
+    intro s hi hm hf'
+    simp only [runU, List.foldl_cons]
+    have hw' : WellFormedRun ops := fun o ho => hw o (by simp [ho])
+    cases h : stepU s op with
+    | error e =>
+      have hst : stepUT s op = s := by simp [stepUT, h]
+      rw [hst]; exact ih hw' s hi hm (by simpa [FreshRun, hst] using hf'.2)
+    | ok s' =>
+      have hst : stepUT s op = s' := by simp [stepUT, h]
+      rw [hst]
+      exact ih hw' s' (inv_stepU s s' hi op hf'.1 h) (mdInv_stepU s s' hi hm op (hw op (by simp)) h)
+        (by simpa [FreshRun, hst] using hf'.2)
+
+/-- **I_external along EVERY history, exactly** (induction over the op list; any messages of the module in any order, with
+any arguments and any outcomes; the alias set of the pair moving along the way): for a registered externally-owned pair,
+the ERC-20 amount escrowed by the module minus the coin supply summed over the base denomination and the aliases the
+metadata lists AT THE END equals the same difference over the aliases listed at the start plus `extDrift` — the sum, over
+the successful messages of the history, of `extDelta` (`MsgConvertDenom` between the token's own denominations: the known
+finding) and `aliasShift` (the current supply of an alias entering or leaving the sum). -/
+theorem external_books_all_histories (s : UState) (hi : IdxInv s.idx) (hm : MdInv s.idx) (hdead : s.dead = [])
+    (ops : List UOp) (hf : FreshRun s ops) (hw : WellFormedRun ops) (id : PairId) (p : Pair)
+    (hp : lookup id s.idx.pairs = some p) (hext : p.external = true) :
+    extBook (runU s ops) p = extBook s p + extDrift p s ops :=
+  extBook_runU s hi hm hdead ops hf hw id p hp hext
+
+/-- **I_external is an invariant of every history of conversions, registrations, toggles and parameter updates**: as long
+as no `MsgConvertDenom` and no `MsgUpdateDenomAlias` occurs, every registered externally-owned pair keeps "escrowed ERC-20 =
+coin supply over base + aliases" through any list of `MsgConvertCoin` / `MsgConvertERC20` (of this and of every other
+token, to any receiver, succeeding or failing), registrations of further tokens, toggles and `MsgUpdateParams`. -/
+theorem external_books_preserved_all_histories (s : UState) (hi : IdxInv s.idx) (hm : MdInv s.idx) (hdead : s.dead = [])
+    (ops : List UOp) (hf : FreshRun s ops) (hw : WellFormedRun ops) (id : PairId) (p : Pair)
+    (hp : lookup id s.idx.pairs = some p) (hext : p.external = true)
+    (hops : ∀ op ∈ ops, (∀ d u r n t, op ≠ .convertDenom d u r n t) ∧ (∀ d a, op ≠ .idx (.updateAlias d a))) :
+    extBook (runU s ops) p = extBook s p := by
+  rw [extBook_runU s hi hm hdead ops hf hw id p hp hext, extDrift_zero p s ops hops]; omega
+
+/-- the hypotheses are met by a history that registers an externally-owned token with an alias, converts in both
+directions, registers and converts another token and toggles — and its book is balanced at the end -/
+example :
+    let s0 : UState := ⟨genesisIdx, ⟨fun a x => if a = .erc 11 ∧ x = .user 1 then 50 else 0, fun a => if a = .erc 11 then 50 else 0,
+      fun _ => none⟩, true, []⟩
+    let ops : List UOp := [.idx (.registerERC20 2 11 [120]), .convertERC20 11 1 1 30, .idx (.registerCoin 3 12 [130, 131]),
+      .convertCoin 2 1 2 10, .idx (.toggle 3)]
+    FreshRun s0 ops ∧ WellFormedRun ops ∧
+    extBook (runU s0 ops) ⟨2, 11, true, true⟩ = 0 ∧ (runU s0 ops).L.bal (.erc 11) .erc20Mod = 20 := by
+  refine ⟨?_, ?_, ?_, ?_⟩
+  · refine ⟨trivial, trivial, ?_, trivial, trivial, trivial⟩
+    simp only [UOp.fresh, IOp.fresh]; decide
+  · intro op hop
+    simp only [List.mem_cons, List.not_mem_nil, or_false] at hop
+    rcases hop with rfl | rfl | rfl | rfl | rfl <;> simp [UOp.wellFormed]
+  · decide
+  · decide
+
+/-- **I_sum along EVERY history** (induction over the op list): "Σ balances = supply" of every coin denomination and every
+ERC-20 contract, over any finite universe of accounts that contains the erc20 module account, the WFX contract and the
+accounts the messages name, is kept by every list of messages — whatever succeeds or fails in between. -/
+theorem sum_preserved_all_histories (s : UState) (ops : List UOp) (univ : List Addr) (hn : univ.Nodup)
+    (hE : Addr.erc20Mod ∈ univ) (hW : Addr.wfx ∈ univ) (hu : ∀ op ∈ ops, UOp.addrsIn univ op)
+    (a : Asset) (hwf : s.L.WF univ a) : (runU s ops).L.WF univ a := by
+  induction ops generalizing s with
+  | nil => exact hwf
+  | cons op ops ih =>
+    simp only [runU, List.foldl_cons]
+    refine ih _ (fun o ho => hu o (by simp [ho])) ?_
+    simp only [stepUT]
+    cases h : stepU s op with
+    | error e => exact hwf
+    | ok s' =>
+      refine sum_preserved_unified s s' op h univ hn hE hW ?_ a hwf
+      have := hu op (by simp)
+      cases op <;> exact this
+
+/-- the universe hypothesis is satisfiable: three users, the module account, the WFX contract and the gov account -/
+example : ∀ op ∈ ([.convertCoin 1 0 6 3, .convertERC20 11 1 2 4, .convertDenom 110 2 0 1 none, .idx (.toggle 1)] : List UOp),
+    UOp.addrsIn [.user 0, .user 1, .user 2, .erc20Mod, .wfx, partyAddr 6] op := by
+  intro op hop
+  simp only [List.mem_cons, List.not_mem_nil, or_false] at hop
+  rcases hop with rfl | rfl | rfl | rfl <;> simp [UOp.addrsIn, partyAddr]
+
+end Histories
 
 /-! ### keeper-level token calls: the regenerated success predicate of the evm keeper's ERC-20 wrappers -/
 
